@@ -111,6 +111,15 @@ func (p *uPacketPacker) PackCoalescedPacket(onlyAck bool, maxSize protocol.ByteC
 		)
 		if initialPayload.length > 0 {
 			size += p.longHeaderPacketLength(initialHdr, initialPayload, v) + protocol.ByteCount(initialSealer.Overhead())
+			// [UQUIC] How large the datagram of a spec-built Initial packet ends up is decided by the frame
+			// builder and by the spec's padding (zeros behind the packet up to UDPDatagramMinSize), not by
+			// this size estimate, so the packer cannot tell how much room is left behind it. A packet
+			// coalesced there ended up behind the zeros, where no receiver finds it, or past the end of the
+			// packet buffer. Such an Initial packet gets the datagram to itself; what would have been
+			// coalesced with it follows in the next datagram.
+			if !onlyAck && len(initialPayload.frames) > 0 {
+				size = maxSize
+			}
 		}
 	}
 
